@@ -9,7 +9,7 @@ from hypothesis import strategies as st
 import drv
 import gen
 import pbt
-from common import Ctx, Failure, main_wrapper
+from common import Ctx, Counters, Failure, main_wrapper, run_workers
 
 PID = "C16"
 RULE = ("Hypothesis-generated configurations (every output incl. failing sinks /dev/full, directory, missing socket/dir; every "
@@ -18,7 +18,8 @@ RULE = ("Hypothesis-generated configurations (every output incl. failing sinks /
         "in plain -O2 builds with and without thread safety. Observed before the call / at real-exec entry / after return: fd "
         "table (numbers, targets, flags), live heap (mallinfo2, tcache off), environ pointer+content hash, cwd, umask, signal "
         "mask, all sigactions, RLIMIT_NOFILE. Oracle: all equal at the three points, heap growth exactly 0 at exec entry and "
-        "across calls. non-trivial = config exercising an error path, a duplicate/continuation option, or an output that opens "
+        "across calls; plus (strace injection) every I/O call of one wrapped call failing in every call from the 3rd on: fd table steady, "
+        "no monotone heap growth. non-trivial = config exercising an error path, a duplicate/continuation option, or an output that opens "
         "a descriptor; distinct by (output kind, option multiset shape, call shape)")
 
 SOURCES = gen.ALL_SOURCES
@@ -77,6 +78,7 @@ def evaluate(env, c):
             ops.append(drv.op("S", fd, c["stdio"]))
         ops += [drv.op("K", "devlog", out + "/devlog.sock", 1), drv.op("K", "sock", out + "/sock")]
         ops += gen.cfg_ops(c["cfg"], out)
+        ops.append(drv.op("P"))         # baseline before the library has ever run in this process
         for i in range(WARMUP + n):
             ops.append(drv.op_exec(c["kind"], b"/bin/prog", c["argv"], c["envp"], ret=-1, err=2, snap=True))
         res = d.scenario(ops)
@@ -86,6 +88,12 @@ def evaluate(env, c):
         Rs, Ts = res.of("R"), res.of("T")
         if len(Rs) != WARMUP + n or len(Ts) != WARMUP + n:
             raise Failure("[%s] %d/%d calls completed" % (variant, len(Ts), WARMUP + n), None, key="incomplete")
+        baseline = res.of("P")[0].f[0]
+        for i in range(0, WARMUP + n):
+            # everything except the heap must already be untouched after the very first call (no warm-up allowance)
+            if Ts[i].f[6] != baseline:
+                raise Failure("[%s] call %d: process state after return differs from the state before the library first ran" % (variant, i),
+                              diff_state(baseline, Ts[i].f[6]), None, key="state-baseline")
         base_h0 = None
         for i in range(WARMUP, WARMUP + n):
             R, T = Rs[i], Ts[i]
@@ -141,6 +149,86 @@ def sample(c):
     return {"ini": c["cfg"]["ini"], "kind": c["kind"], "argv": c["argv"], "envp": c["envp"], "n": c["n"], "stdio": c["stdio"]}
 
 
+# ------------------------------------------------------------------ error paths reached by injected I/O failures
+FAULT_ERR = {"openat": ["EMFILE", "EACCES"], "read": ["EIO"], "write": ["ENOSPC"], "newfstatat": ["EACCES"], "fstat": ["EIO"],
+             "socket": ["EMFILE"], "connect": ["ECONNREFUSED"], "sendto": ["EAGAIN"], "getcwd": ["ERANGE"], "ioctl": ["ENOTTY"], "readlink": ["EACCES"],
+             "lseek": ["ESPIPE"], "getdents64": ["EIO"], "access": ["EACCES"]}
+# close() is never failed here: strace's injection skips the real call, which would itself manufacture a descriptor leak
+NCALLS = 8
+
+
+def fault_worker(args):
+    import trace
+    idx, jobs = args
+    ctx = _F["ctx"]
+    local = Counters(ctx.known, idx)
+    os_ = trace.OneShot(ctx.run, _F["build"], "f%d" % idx)
+    out = os_.out
+    fails = []
+    for cname, opts in jobs:
+        ini = gen.render_ini([(k, v.replace(gen.OUT, out.encode())) for k, v in opts])
+        ops = [drv.op("x", out + "/log"), drv.op("S", 1, "pipe"), drv.op("S", 2, "pipe"), drv.op("K", "devlog", out + "/devlog.sock", 1),
+               drv.op("K", "sock", out + "/sock"), drv.op("C", ini)]
+        for i in range(NCALLS):
+            ops.append(drv.op_exec("e", b"/bin/prog", [b"prog", b"a"], [b"X=1"], ret=-1, err=2, snap=True))
+        os_.write_scenario(ops)
+        rc, events = os_.run_traced([], timeout=30)
+        calls, _ = os_.parse_log()
+        if rc != 0:
+            local.inconclusive.append("dry run failed for " + cname)
+            continue
+        third = [c for c in calls if c["callno"] == 3 and c["phase"] == 1 and c["name"] in FAULT_ERR]
+        per_call = {}
+        for c in calls:
+            if c["callno"] == 3:
+                per_call[c["name"]] = per_call.get(c["name"], 0) + 1
+        for c in third:
+            for err in FAULT_ERR[c["name"]]:
+                step = per_call.get(c["name"], 1)
+                inj = "%s:error=%s:when=%d+%d" % (c["name"], err, c["ordinal"], step)
+                rc, events = os_.run_traced(["-e", "inject=" + inj], timeout=30)
+                T = [e for e in events if e.code == "T"]
+                what = "%s, %s failing with %s in every call from the 3rd on (%s)" % (cname, c["name"], err, c["text"][:70])
+                key = (cname, c["name"], c["ordinal"], err)
+                local.count(key, ["fault-injection", "config:" + cname, "syscall:" + c["name"]], sample={"config": cname, "inject": inj, "call": c["text"][:100]})
+                if rc != 0 or len(T) != NCALLS:
+                    local.inconclusive.append("injected run did not complete (that is C03's subject): " + what)
+                    continue
+                S = [t.f[5] for t in T]          # state before each call
+                H = [int(t.f[7]) for t in T]     # heap before each call
+                try:
+                    if S[NCALLS - 1] != S[4]:
+                        raise Failure("process state keeps changing while an I/O call fails: " + what, diff_state(S[4], S[NCALLS - 1]), None, key="fault-state")
+                    if H[7] > H[6] > H[5] > H[4]:
+                        raise Failure("live heap grows with every call while an I/O call fails: " + what, {"heap_before_calls_5_to_8": H[4:]}, None, key="fault-growth")
+                except Failure as f:
+                    if local.is_known(f.key):
+                        local.known_hit(f.key, f.what)
+                    elif not fails:
+                        fails.append({"case": {"fault": inj, "config": cname}, "what": f.what, "observed": f.observed, "expected": None})
+    return local.export(), fails
+
+
+_F = {}
+
+
+def fault_phase(ctx, build):
+    o = gen.OUT
+    cfgs = [("file+all-ds", [(b"output", b"file:" + o + b"/log"), (b"message_format", ALL_DS)]),
+            ("devlog+ident", [(b"output", b"devlog"), (b"syslog_ident", b"%{username}-%{login}"), (b"message_format", b"%{cwd} %{tty_username} %{rpname} %{cgroup:memory}")]),
+            ("socket+chain", [(b"output", b"socket:" + o + b"/sock"), (b"filter_chain", b"exclude_spawns_of:zz,yy;only_uid:0"), (b"message_format", b"%{cmdline} %{egroup} %{eusername}")]),
+            ("stdout+default", [(b"output", b"stdout")])]
+    if ctx.quick:
+        cfgs = cfgs[:2]
+    _F.update({"ctx": ctx, "build": build})
+    nw = 8
+    for out, fails in run_workers(fault_worker, nw, [(i, cfgs[i::nw]) for i in range(min(nw, len(cfgs)))]):
+        ctx.merge(out)
+        for f in fails[:1]:
+            if len(ctx.violations) < 3:
+                ctx.violation(f["case"], f["observed"], f["expected"], f["what"])
+
+
 def main():
     ctx = Ctx(PID, "exploration", RULE)
     bs = ctx.run.build_many(["ts-plain", "nts-plain"])
@@ -159,6 +247,8 @@ def main():
             fixed.append({"cfg": {"kind": kind, "ini": gen.render_ini(o2), "opts": o2}, "feats": ["all-data-sources"], "kind": "e",
                           "argv": [b"a", b"b"], "envp": [b"X=1"], "n": 200, "stdio": "pipe", "long": True})
     pbt.run(ctx, builds, strategy, evaluate, classify, nw, per, sample=sample, fixed_cases=fixed)
+    if not ctx.replay:
+        fault_phase(ctx, builds["ts-plain"])
     ctx.finish()
 
 
